@@ -44,17 +44,31 @@ theorem out_of_range_is_ctl_error (consume : Bool) (b : Blk) (val : Val) (x : In
   simp [synthExec, hb, hv, hk]
 
 /-- **C06, static part.** Every table entry names one of the block's own successors and every
-    successor is named by at least one entry. -/
+    successor (jump target or declared back edge) is named by at least one entry. -/
 theorem tables_sound (H : Hier) (h : tablesOK H = true) :
     ∀ b ∈ H, b.kind.isBranching = true →
-      (∀ p ∈ b.tbl, p.2 ∈ b.jts) ∧ (∀ t ∈ b.jts, ∃ p ∈ b.tbl, p.2 = t) := by
+      (∀ p ∈ b.tbl, p.2 ∈ b.jts) ∧ (∀ t ∈ b.jts ++ b.bes, ∃ p ∈ b.tbl, p.2 = t) := by
   intro b hb hk
   have := List.all_eq_true.mp h b hb
   simp only [hk, Bool.not_true, Bool.false_or, tableOK, Bool.and_eq_true, List.all_eq_true,
     List.any_eq_true, beq_iff_eq] at this
-  refine ⟨fun p hp => ?_, fun t ht => this.2 t ht⟩
-  have := this.1 p hp
-  simpa [List.contains_iff_mem] using this
+  refine ⟨fun p hp => ?_, fun t ht => ?_⟩
+  · have := this.1.1 p hp
+    simpa [List.contains_iff_mem] using this
+  · rcases List.mem_append.mp ht with h1 | h1
+    · exact this.1.2 t h1
+    · exact this.2 t h1
+
+/-- **After every renaming.** If an edit passes `tablesPreserved`, every branching block that was
+    present before with a good table still has a good table. -/
+theorem tablesPreserved_sound (before after : Hier) (h : tablesPreserved before after = true) :
+    ∀ a ∈ after, a.kind.isBranching = true →
+      ∀ b, before.find? (fun b => b.cont == a.cont && b.name == a.name) = some b →
+        tableOK b = true → tableOK a = true := by
+  intro a ha hk b hb hgood
+  have := List.all_eq_true.mp h a ha
+  simp only [hk, Bool.not_true, Bool.false_or, hb, hgood] at this
+  simpa using this
 
 /-- An unset read really is an error of the semantics (the check is not vacuous). -/
 def exLatch : Blk where
